@@ -3,6 +3,7 @@ import RattrDriver.C20
 import RattrModel.Imports
 import RattrModel.Spec.Allowed
 import RattrModel.FollowConfig
+import RattrModel.ImportEdges
 
 namespace Rattr.Driver.C12
 open Lean Rattr Rattr.Driver Rattr.Imports
@@ -77,6 +78,43 @@ def handleConfig (j : Json) : R Json := do
       ("theoremLevel", theoremLevel)]
   | o => return Json.mkObj [("outcome", "error"), ("detail", C20.outcomeJson o), ("theoremLevel", theoremLevel)]
 
+/-! ### optional `project` part of op `imports`: the edge model (RattrModel/ImportEdges.lean) -/
+
+def toDotted (s : String) : Locator.Dotted := Strs.splitDot s.toList
+def ofDotted (d : Locator.Dotted) : String := String.ofList (Strs.joinDot d)
+
+def parseStmt (j : Json) : R Edges.Stmt := do
+  return { level := (← asNat (← field j "level")),
+           module := (← asOptStr (← field j "module")).map toDotted,
+           name := (← asOptStr (← field j "name")).map String.toList,
+           declBl := (← asBool (fieldD j "declBl" (Json.bool false))) }
+
+def errStr : Spec.ResolveErr → String
+  | .noParentPackage => "noParentPackage" | .beyondTopLevel => "beyondTopLevel"
+
+/-- Per file, per statement: the `Import` symbol rattr's rule gives (`qualified`, `module`), what
+Python's rule gives (`pyQualified` / `pyError`, `pyModule`), whether the statement is in the fragment
+of `C12_edge_like_python` (`wf`) and whether the two edges are equal (`same`: the theorem's
+conclusion). `exists` = the dotted names that are modules of the project (by construction). -/
+def handleProject (j : Json) : R Json := do
+  let names := (← asStrList (← field j "exists")).map toDotted
+  let ex : Locator.Dotted → Bool := fun n => names.contains n
+  let files ← (← asArr (← field j "files")).mapM fun fj => do
+    let src : Edges.Src := { base := toDotted (← asStr (← field fj "base")), isInit := (← asBool (← field fj "isInit")) }
+    let stmts ← (← asArr (← field fj "stmts")).mapM parseStmt
+    pure (src, stmts)
+  return jList (files.map fun (src, stmts) => jList (stmts.map fun s =>
+    let q := Edges.qualified src s
+    let pq := Edges.pyQualified src s
+    Json.mkObj [
+      ("qualified", Json.str (ofDotted q)),
+      ("module", jOptStr ((Edges.moduleName ex q).map ofDotted)),
+      ("pyQualified", match pq with | .ok r => Json.str (ofDotted r) | .error _ => Json.null),
+      ("pyError", match pq with | .ok _ => Json.null | .error e => Json.str (errStr e)),
+      ("pyModule", jOptStr ((Edges.pyTarget ex src s).map ofDotted)),
+      ("wf", Json.bool (Edges.wf src s)),
+      ("same", Json.bool (decide (Edges.impOf ex src s = Edges.pyImpOf ex src s)))]))
+
 /-- op `imports`: the model of the import-following stage, the executable spec closure and the
 decidable hypotheses of the C12 theorems, on one module graph. `flags` are the bits the running
 implementation reports (`Arguments.follow_*_imports`); the spec uses the documented meaning of
@@ -108,6 +146,9 @@ def handle (payload : Json) : R Json := do
   let config ← match fieldD payload "config" Json.null with
     | .null => pure Json.null
     | c => handleConfig c
+  let edges ← match fieldD payload "project" Json.null with
+    | .null => pure Json.null
+    | p => handleProject p
   let bound := fuelBound g target
   let fuel := match (fieldD payload "fuel" Json.null).getNat? with
     | .ok n => n
@@ -130,6 +171,7 @@ def handle (payload : Json) : R Json := do
     ("classes", Json.mkObj (g.map fun m => (m.name, Json.str (clsStr m.cls)))),
     ("resolve", jList (target.map fun i => allowedJson (Resolve.importAllowed g fl keys i))),
     ("config", config),
+    ("edges", edges),
     ("realNodup", Json.bool (decide (realFiles g real st.analysed).Nodup)),
     ("hyps", Json.mkObj [
       ("sectionsAgree", if secs.isEmpty then Json.null else Json.bool (decide (Spec.SectionsAgree g sec))),
